@@ -430,3 +430,86 @@ class ObstaclesByPositionIntervals(Contract):
                 conds.append(z3.BoolVal(id(o) in got) == inside)
             yield ("an obstacle is returned iff its centre at the time step lies in the box", z3.And(*conds))
             yield ("only static and dynamic obstacles", got <= set(id(o) for o in inp["obstacles"][:3]))
+
+
+# ------------------------------------------------------------------------------ enclosure, position uncertainty only (deductive part)
+
+
+# NOT registered: with uninterpreted sin / cos (unit circle, parity, addition theorem instances) z3 answers 'incomplete' /
+# runs out of time on these degree-3 obligations even for concrete sizes; an undecided obligation on the unchanged tree would make
+# the check exit 2, so the clause stays with the bounded check of pyvc/bounded.py.  Kept as the record of the attempt (DESIGN.md 9).
+class EnclosurePositionRegion(Contract):
+    """occupancy_shape_from_state for a rectangular obstacle, an exact orientation psi and a position given as a rotated
+    rectangle region: every corner of the shape placed at every admissible position lies in the returned rectangle.
+    (The orientation-interval part of the enclosure needs monotonicity of l*cos d + w*sin d and stays bounded: pyvc/bounded.py.)"""
+    prop = "C04"
+    target = "commonroad.geometry.shape.occupancy_shape_from_state"
+    sizes = (4.0, 2.0, 1.0, 0.5)
+    case = "rectangle shape 4x2, exact orientation, position region = rotated rectangle 1x0.5"
+    options = {"trig_addition": True}
+    unroll = MVO
+    summaries = ("make_valid_orientation",)
+    budget_s = 600
+    describe = "for every admissible position in the region and every corner of the shape: the placed corner lies inside the returned enclosure"
+
+    def build(self, F):
+        from contracts.c01 import ang, pos, positive
+
+        lv, wv, ls, ws = self.sizes
+        shape = F.new(Rectangle, lv, wv)
+        region = F.new(Rectangle, ls, ws, pos(F, "c"), ang(F, "theta"))
+        psi = ang(F, "psi")
+        # sin / cos are uninterpreted without periodicity: keep theta - psi inside the range where make_valid_orientation is the identity
+        F.assume(z3.And(R(F.attr(region, "orientation")) - R(psi) <= TWO_PI, R(F.attr(region, "orientation")) - R(psi) >= -TWO_PI))
+        state = F.new(st.CustomState, time_step=0, position=region, orientation=psi)
+        ax, ay = F.real("a_x"), F.real("a_y")  # admissible position = c + R(theta)(a_x, a_y), |a_x| <= l_s/2, |a_y| <= w_s/2
+        F.assume(z3.And(2 * R(ax) <= R(F.attr(region, "length")), -2 * R(ax) <= R(F.attr(region, "length")),
+                        2 * R(ay) <= R(F.attr(region, "width")), -2 * R(ay) <= R(F.attr(region, "width"))))
+        return {"shape": shape, "region": region, "psi": psi, "state": state, "a": (ax, ay), "args": [shape, state]}
+
+    def post(self, F, inp, out):
+        yield ("raises nothing", out.exc is None)
+        if out.exc is not None:
+            return
+        enc = out.value
+        yield ("the enclosure is a rectangle", (enc.cls if not F.native else type(enc)) is Rectangle)
+        from pyvc import ops
+
+        ctx = F.ctx if not F.native else None
+        theta, psi = F.attr(inp["region"], "orientation"), inp["psi"]
+        if F.native:
+            import math
+
+            ct, st_, cp, sp = math.cos(theta), math.sin(theta), math.cos(psi), math.sin(psi)
+            ce, se = math.cos(enc.orientation), math.sin(enc.orientation)
+            tol = 1e-9
+        else:
+            ct, st_, cp, sp = R(ops.mcos(ctx, theta)), R(ops.msin(ctx, theta)), R(ops.mcos(ctx, psi)), R(ops.msin(ctx, psi))
+            # instantiate the addition theorem for theta - psi (the code takes sin / cos of make_valid_orientation(theta - psi), which
+            # the callee contract identifies with theta - psi in this range)
+            import ast as _ast
+
+            diff = F.interp.binop(_ast.Sub, theta, psi)
+            ops.mcos(ctx, diff), ops.msin(ctx, diff)
+            eo = F.attr(enc, "orientation")
+            ce, se = R(ops.mcos(ctx, eo)), R(ops.msin(ctx, eo))
+            tol = 0
+        c = F.elems(F.attr(inp["region"], "center"))
+        ec = F.elems(F.attr(enc, "center"))
+        ax, ay = (R(v) if not F.native else v for v in inp["a"])
+        cx, cy, ecx, ecy = (R(v) if not F.native else float(v) for v in (c[0], c[1], ec[0], ec[1]))
+        lv, wv = (R(F.attr(inp["shape"], k)) if not F.native else float(F.attr(inp["shape"], k)) for k in ("length", "width"))
+        L, W = (R(F.attr(enc, k)) if not F.native else float(F.attr(enc, k)) for k in ("length", "width"))
+        px, py = cx + ct * ax - st_ * ay, cy + st_ * ax + ct * ay  # the admissible position
+        conds = []
+        for sx, sy in ((1, 1), (1, -1), (-1, 1), (-1, -1)):
+            vx, vy = sx * lv / 2, sy * wv / 2
+            wxp, wyp = px + cp * vx - sp * vy, py + sp * vx + cp * vy  # the placed corner, world frame
+            dx, dy = wxp - ecx, wyp - ecy
+            lx, ly = ce * dx + se * dy, -se * dx + ce * dy  # in the enclosure's frame
+            if F.native:
+                conds.append(abs(lx) <= L / 2 + tol and abs(ly) <= W / 2 + tol)
+            else:
+                conds.append(z3.And(2 * lx <= L, -2 * lx <= L, 2 * ly <= W, -2 * ly <= W))
+        for k, cnd in enumerate(conds):
+            yield ("corner %d of the shape at the admissible position lies in the enclosure" % k, cnd)
